@@ -49,6 +49,9 @@ struct Sc {
     publisher_yields: bool,
     /// a sixth subscriber created with spawn_instant and subscribed before its start-up task ever ran
     instant: bool,
+    /// the self-stopping subscriber is the ONLY one at first: the port runs empty when it goes, and the late
+    /// subscriber arrives into an empty port while the forwarding machinery is still dropping the dead one
+    solo: bool,
 }
 
 fn body(sc: Sc, v2: bool) -> vsched::Body {
@@ -78,10 +81,14 @@ fn body(sc: Sc, v2: bool) -> vsched::Body {
             } else {
                 None
             };
-            port.subscribe(s1.clone(), Some);
-            port.subscribe(s3.clone(), |v| if v % 2 == 1 { None } else { Some(v + 1000) });
+            if !sc.solo {
+                port.subscribe(s1.clone(), Some);
+                port.subscribe(s3.clone(), |v| if v % 2 == 1 { None } else { Some(v + 1000) });
+            }
             port.subscribe(s4.clone(), Some);
-            port.subscribe(s5.clone(), Some);
+            if !sc.solo {
+                port.subscribe(s5.clone(), Some);
+            }
             // subscriptions are established before the first publication (v2 applies them in order
             // with the data; v1 creates the receiver inside subscribe())
             let p2 = port.clone();
@@ -120,13 +127,17 @@ fn body(sc: Sc, v2: bool) -> vsched::Body {
             // without lag nothing may be skipped: the default port buffers 10, streams of <= 10 cannot lag
             let no_lag = v2 || sc.n <= 10;
             let g1 = l1.lock().unwrap().clone();
-            check("S1 (subscribed from the start)", &g1, &published, no_lag, &mut bad);
+            if !sc.solo {
+                check("S1 (subscribed from the start)", &g1, &published, no_lag, &mut bad);
+            }
             let g2 = l2.lock().unwrap().clone();
             let want2: Vec<u32> = published.iter().copied().filter(|v| *v >= sc.late_at).collect();
             check("S2 (late subscriber)", &g2, &want2, no_lag, &mut bad);
             let g3 = l3.lock().unwrap().clone();
             let want3: Vec<u32> = published.iter().copied().filter(|v| v % 2 == 0).map(|v| v + 1000).collect();
-            check("S3 (converter skips odd values)", &g3, &want3, no_lag, &mut bad);
+            if !sc.solo {
+                check("S3 (converter skips odd values)", &g3, &want3, no_lag, &mut bad);
+            }
             let g4 = l4.lock().unwrap().clone();
             let want4: Vec<u32> = published.iter().copied().take(sc.stop_after).collect();
             check("S4 (stops itself)", &g4, &published, false, &mut bad);
@@ -134,7 +145,9 @@ fn body(sc: Sc, v2: bool) -> vsched::Body {
                 bad.push(format!("S4 stopped after {} messages but handled {g4:?}", sc.stop_after));
             }
             let g5 = l5.lock().unwrap().clone();
-            check("S5 (slow subscriber)", &g5, &published, no_lag, &mut bad);
+            if !sc.solo {
+                check("S5 (slow subscriber)", &g5, &published, no_lag, &mut bad);
+            }
             let g6 = l6.lock().unwrap().clone();
             if sc.instant {
                 check("S6 (spawn_instant, subscribed before its start-up ran)", &g6, &published, no_lag, &mut bad);
@@ -180,25 +193,29 @@ pub fn plan(tier: &str) -> Plan {
     let bound = if thorough { 3 } else { 2 };
     let mut units = Vec::new();
     let mut scs = vec![
-        Sc { n: 6, late_at: 0, stop_after: 1, slow: false, publisher_yields: true, instant: false },
-        Sc { n: 6, late_at: 2, stop_after: 3, slow: false, publisher_yields: true, instant: false },
-        Sc { n: 6, late_at: 5, stop_after: 3, slow: true, publisher_yields: false, instant: false },
-        Sc { n: 6, late_at: 6, stop_after: 1, slow: true, publisher_yields: true, instant: false },
+        Sc { n: 6, late_at: 0, stop_after: 1, slow: false, publisher_yields: true, instant: false, solo: false },
+        Sc { n: 6, late_at: 2, stop_after: 3, slow: false, publisher_yields: true, instant: false, solo: false },
+        Sc { n: 6, late_at: 5, stop_after: 3, slow: true, publisher_yields: false, instant: false, solo: false },
+        Sc { n: 6, late_at: 6, stop_after: 1, slow: true, publisher_yields: true, instant: false, solo: false },
     ];
     if thorough {
         for late_at in [1, 3, 4] {
             for stop_after in [2, 5] {
-                scs.push(Sc { n: 6, late_at, stop_after, slow: false, publisher_yields: late_at % 2 == 0, instant: stop_after == 5 });
+                scs.push(Sc { n: 6, late_at, stop_after, slow: false, publisher_yields: late_at % 2 == 0, instant: stop_after == 5, solo: false });
             }
         }
     }
-    scs.push(Sc { n: 4, late_at: 1, stop_after: 2, slow: false, publisher_yields: false, instant: true });
-    scs.push(Sc { n: 4, late_at: 4, stop_after: 1, slow: false, publisher_yields: true, instant: true });
+    scs.push(Sc { n: 4, late_at: 1, stop_after: 2, slow: false, publisher_yields: false, instant: true, solo: false });
+    scs.push(Sc { n: 4, late_at: 4, stop_after: 1, slow: false, publisher_yields: true, instant: true, solo: false });
+    // the only subscriber stops, the port runs empty, a late subscriber arrives
+    scs.push(Sc { n: 6, late_at: 3, stop_after: 1, slow: false, publisher_yields: true, instant: false, solo: true });
+    scs.push(Sc { n: 6, late_at: 2, stop_after: 1, slow: false, publisher_yields: false, instant: false, solo: true });
+    scs.push(Sc { n: 6, late_at: 4, stop_after: 2, slow: false, publisher_yields: true, instant: false, solo: true });
     // a long stream: subscribers of the default port lag behind (buffer 10)
-    scs.push(Sc { n: 25, late_at: 12, stop_after: 4, slow: true, publisher_yields: false, instant: false });
+    scs.push(Sc { n: 25, late_at: 12, stop_after: 4, slow: true, publisher_yields: false, instant: false, solo: false });
     for build_v2 in [false, true] {
         for sc in &scs {
-            let name = format!("{}/n{}-late{}-stop{}-slow{}-yield{}{}", if build_v2 { "v2" } else { "v1" }, sc.n, sc.late_at, sc.stop_after, sc.slow, sc.publisher_yields, if sc.instant { "-instant" } else { "" });
+            let name = format!("{}/n{}-late{}-stop{}-slow{}-yield{}{}", if build_v2 { "v2" } else { "v1" }, sc.n, sc.late_at, sc.stop_after, sc.slow, sc.publisher_yields, if sc.instant { "-instant" } else if sc.solo { "-solo" } else { "" });
             let b: vsched::Body = if build_v2 == V2 {
                 body(*sc, build_v2)
             } else {
